@@ -71,15 +71,14 @@ Fixpoint open_rows (last inner : N) (ros : list oframe) : list row :=
   | [] => []
   | o :: t =>
       mkrow (o_addr o) (last - o_t0 o) (last - o_t0 o - sumdur (o_kids o) - inner)
-            (existsb (N.eqb (o_addr o)) (map o_addr t))
+            (recursive (o_addr o) (map o_addr t))
       :: open_rows last (last - o_t0 o) t
   end.
 (* each open frame's completed callees and the next inner open frame fit into its span up to [last] *)
 Fixpoint fits (last inner : N) (ros : list oframe) : Prop :=
   match ros with
   | [] => True
-  | o :: t => o_addr o <> 0 /\ Forall wt (o_kids o) /\ o_t0 o + sumdur (o_kids o) + inner <= last
-              /\ fits last (last - o_t0 o) t
+  | o :: t => Forall wt (o_kids o) /\ o_t0 o + sumdur (o_kids o) + inner <= last /\ fits last (last - o_t0 o) t
   end.
 
 Lemma remaining_open last : last < M64 -> forall ros extra inner,
@@ -88,7 +87,7 @@ Lemma remaining_open last : last < M64 -> forall ros extra inner,
   remaining_from false last extra (map oslot ros) = open_rows last inner ros.
 Proof.
   intros Hlast. induction ros as [|o t IH]; intros extra inner Hex Hf; [reflexivity|].
-  cbn [fits] in Hf. destruct Hf as (Hnz & Hk & Hfit & Hrest).
+  cbn [fits] in Hf. destruct Hf as (Hk & Hfit & Hrest).
   cbn [map remaining_from open_rows oslot s_child s_total s_addr].
   assert (child64 (o_kids o) 0 = sumdur (o_kids o)) as Hc.
   { rewrite child64_wt by (auto; lia). lia. }
@@ -99,7 +98,7 @@ Proof.
   rewrite sub64_le by lia.
   replace (last - o_t0 o <? sumdur (o_kids o) + inner) with false by lia.
   rewrite sub64_le by lia.
-  rewrite has_addr_map, map_map. cbn [oslot s_addr]. replace (o_addr o =? 0) with false by lia. cbn [negb andb].
+  rewrite has_addr_map, map_map. cbn [oslot s_addr].
   f_equal; [f_equal; lia|].
   apply IH; [right; reflexivity|exact Hrest].
 Qed.
